@@ -41,6 +41,9 @@ RULE = (
     "evaluated; distinct = distinct case tuple."
 )
 ASSUMPTIONS = [
+    "fractional float labels such as 0.5 are not in the label alphabet: the statement lists "
+    "integers, strings and non-contiguous values, and scikit-learn treats fractional floats as a "
+    "continuous (regression) target; float-typed labels with integral values are included",
     "every class of the label set occurs in the training panel; equal-length series",
     "ties for the maximal probability: any label of the arg-max set (tolerance 1e-12) is accepted",
     "label type = numpy dtype kind of the returned array (int / float / str) equals that of the "
